@@ -3,6 +3,7 @@
 package c10
 
 import (
+	"math/big"
 	"bytes"
 	"crypto"
 	"crypto/rsa"
@@ -427,7 +428,21 @@ func init() {
 				_ = k.String()
 			}
 		}})
-		reg("TSS", entry{name: "tss/rsa.SignShare.UnmarshalBinary", seeds: [][]byte{mb(&ss[0]), mb(&ss[1]), mb(&ss[2])}, max: 3000, f: func(b []byte) {
+		// partial signatures whose value is not invertible modulo N (0, N, a
+		// multiple of one prime factor), for every player index
+		var degenerate [][]byte
+		for i := range ss {
+			enc := mb(&ss[i])
+			for _, v := range []*big.Int{new(big.Int), pub.N, new(big.Int).Mul(key.Primes[0], big.NewInt(3))} {
+				vb := v.Bytes()
+				if len(vb) == 0 {
+					vb = []byte{0}
+				}
+				c := append(lib.Clone(enc[:6]), byte(len(vb)>>8), byte(len(vb)))
+				degenerate = append(degenerate, append(c, vb...))
+			}
+		}
+		reg("TSS", entry{name: "tss/rsa.SignShare.UnmarshalBinary", seeds: [][]byte{mb(&ss[0]), mb(&ss[1]), mb(&ss[2])}, extra: degenerate, max: 3000, f: func(b []byte) {
 			var s tssrsa.SignShare
 			if s.UnmarshalBinary(b) == nil {
 				_, _ = s.MarshalBinary()
